@@ -2,8 +2,11 @@ module verifharness
 
 go 1.19
 
-require github.com/go-text/typesetting v0.0.0
+require (
+	github.com/go-text/typesetting v0.0.0
+	golang.org/x/text v0.21.0
+)
 
-require golang.org/x/image v0.23.0 // indirect
+require golang.org/x/image v0.23.0
 
 replace github.com/go-text/typesetting => /repo
